@@ -36,6 +36,9 @@ class Run:
             k += 1
         t = obs.get(prefix + 'T', '-')
         self.trace = [] if t.strip() in ('-', '') else t.split()
+        # `!`: a user future (config token sig=<i>) sent the interrupt signal at this point of the trace
+        self.sig_at = self.trace.index('!') if '!' in self.trace else None
+        self.trace = [x for x in self.trace if x != '!']
         self.O = obs.get(prefix + 'O')
         self.Z = obs.get(prefix + 'Z')
 
@@ -185,7 +188,8 @@ def clean(r):
     if r.case.family.startswith('share') and r.prefix != 'r0.':
         return False      # the run starts on an InterruptibilityState that was already interrupted
     if r.kind == 'call':
-        return (r.cfg.get('strat', 'non') in ('non', 'ign') or 'i' not in [e.lstrip('+') for e in r.events]) and not r.failed()
+        return (r.cfg.get('strat', 'non') in ('non', 'ign')
+                or ('i' not in [e.lstrip('+') for e in r.events] and r.cfg.get('sig') is None)) and not r.failed()
     return r.cfg.get('int', '0') == '0' or 'i' not in r.events
 
 
@@ -295,7 +299,7 @@ def mon_c06(c, r):
         return None     # streams: C05's monitor covers the stall
     if r.cfg.get('api') in ('fold', 'tryfold') or r.cfg.get('lim', '0') != '0' or not clean(r):
         return None
-    if any(e.lstrip('+') == 'i' for e in r.events):
+    if any(e.lstrip('+') == 'i' for e in r.events) or r.cfg.get('sig') is not None:
         return None
     preds = c.preds(r)
     imm = r.imm()
@@ -378,9 +382,27 @@ def int_bound(strat, incl):
     return None
 
 
+SELF_SIGNAL_KEY = 'signal-sent-inside-a-poll'
+
+
 @each_run
 def mon_c08(c, r):
     evs = [e.lstrip('+') for e in r.events]
+    if r.kind == 'call' and r.sig_at is not None:
+        # the signal was sent by a user future while the call was being polled: everything after the
+        # mark started after the signal had been sent
+        strat = r.cfg.get('strat', 'non')
+        b = int_bound(strat, r.cfg.get('incl', '1') == '1')
+        after = [int(x[1:]) for x in r.trace[r.sig_at:] if x[0] == 's']
+        if b is not None and len(after) > b:
+            return ('%s: %d functions (%s) started after the interrupt signal was sent by the user future of function %s '
+                    'during a poll of the call (strategy %s, include=%s, bound %d)'
+                    % (SELF_SIGNAL_KEY, len(after), ' '.join(map(str, after)), r.cfg.get('sig'), strat, r.cfg.get('incl', '1') == '1', b))
+    if r.kind == 'call' and ('i' in evs or r.sig_at is not None):
+        # "functions already started are always completed ... and the call returns"
+        stuck = _c04_run(c, r)
+        if stuck:
+            return 'after an interrupt signal: ' + stuck
     if 'i' not in evs:
         return None
     k0 = evs.index('i')
